@@ -10,7 +10,7 @@ Open Scope N_scope.
    now, or blocked on a future that completes exactly now *)
 Definition runnable (ts : list task) (t m : N) (k : nat) : Prop :=
   exists tk, nth_error ts k = Some tk /\ t_mod tk = m /\
-    ((unspawned tk /\ t_start tk = t) \/ exists a, t_cur tk = Some a /\ aw_wake a = t).
+    ((unspawned tk /\ t_start tk = t) \/ exists a, t_cur tk = Some a /\ aw_wake a (t_iv tk) = t).
 
 Lemma waker_of_cons own id k id' : waker_of ((id, k) :: own) id' = if id =? id' then Some k else waker_of own id'.
 Proof. reflexivity. Qed.
@@ -32,7 +32,7 @@ Proof.
   rewrite N.eqb_sym. reflexivity.
 Qed.
 
-Lemma new_at_in a x id : In id (new_at a x) <-> exists s, In s (aw_held a) /\ sid s = id /\ deadline s = x.
+Lemma new_at_in a iv x id : In id (new_at a iv x) <-> exists s, In s (aw_held a iv) /\ sid s = id /\ deadline s = x.
 Proof.
   unfold new_at. rewrite in_map_iff. split.
   - intros (s & E & Hin). apply filter_In in Hin. destruct Hin as [Hin Hd]. exists s. repeat split; [exact Hin|exact E|lia].
@@ -55,10 +55,13 @@ Qed.
 
 Section PollStep.
   (* [drc]: the driver after the future the task was blocked on has completed (for a task that
-     is spawned: the driver as it is); it holds no entry of task k any more *)
+     is spawned: the driver as it is); it holds no entry of task k any more.  The poll leaves
+     the result (o, b, n, dr'), which meets [poll_ok] against the log [E] still demanded;
+     [old]: ids of Sleeps task k owned before the poll *)
   Variables (ts0 ts : list task) (own : wakers) (nid : N) (drc : driver) (t m : N) (k : nat) (r : list nat).
-  Variables (tk tk0 : task) (L : list N) (Sx : list step) (o : list N) (b : option (aw * list step)) (n : N) (dr' : driver).
+  Variables (tk tk0 : task) (L E : list N) (o : list N) (b : option (aw * option interval * list step)) (n : N) (dr' : driver).
   Variable before : list N.
+  Variable old : N -> Prop.
 
   Hypothesis Hbase : Base ts0 ts own nid.
   Hypothesis Hnd : NoDup (k :: r).
@@ -73,96 +76,124 @@ Section PollStep.
   Hypothesis Hmod : t_mod tk = m.
   Hypothesis Hmod0 : t_mod tk = t_mod tk0.
   Hypothesis Hst0 : t_start tk = t_start tk0.
-  Hypothesis HS : Forall frag_step Sx.
-  Hypothesis Hrun : frag_run t nid Sx drc = (o, b, n, dr').
-  Hypothesis Hexp : expected tk0 = L ++ exp_run t Sx.
+  Hypothesis Hold : forall id, old id -> exists s, In s (owned tk) /\ sid s = id.
+  Hypothesis Hspec : poll_ok t nid old drc E (o, b, n, dr').
+  Hypothesis Hexp : expected tk0 = L ++ E.
 
-  Let tk' := {| t_mod := t_mod tk; t_start := t_start tk; t_steps := fr_steps b; t_cur := fr_cur b; t_iv := None;
+  Let tk' := {| t_mod := t_mod tk; t_start := t_start tk; t_steps := fr_steps b; t_cur := fr_cur b; t_iv := fr_iv b;
                 t_log := L ++ o; t_fin := match fr_steps b with [] => true | _ => false end |}.
   Let ts' := set_nth k tk' ts.
-  Let own' := note_polls true k before (held_sleeps (fr_cur b) None ++ []) own.
+  Let own' := note_polls true k before (held_sleeps (fr_cur b) (fr_iv b) ++ []) own.
 
   Lemma ps_fresh : forall x id, In id (ents_at x (pending drc)) -> id < nid.
   Proof.
-    intros x id Hin. destruct (Htt x id Hin) as (k' & tk1 & s & _ & Hk' & Hs & _ & E & _). rewrite <- E.
+    intros x id Hin. destruct (Htt x id Hin) as (k' & tk1 & s & _ & Hk' & Hs & _ & E1 & _). rewrite <- E1.
     exact (proj1 (b_ids _ _ _ _ Hbase k' tk1 s Hk' Hs)).
   Qed.
 
   Lemma ps_cases : nid <= n /\
-    ((b = None /\ exp_run t Sx = o) \/
-     exists a st rest, b = Some (a, st :: rest) /\ Forall frag_step rest /\
-        exp_run t Sx = o ++ aw_rec a ++ exp_run (aw_wake a) rest /\ blocked_ok t nid n a).
+    ((b = None /\ E = o) \/
+     exists a iv' st rest, b = Some (a, iv', st :: rest) /\ Forall frag_step rest /\
+        E = o ++ aw_rec a iv' ++ exp_run (aw_end a iv') (iv_abs (iv_after a iv')) rest /\ blocked_ok t nid n old a iv').
   Proof.
-    pose proof (frag_run_spec t Sx HS nid drc Hmid ps_fresh) as H. rewrite Hrun in H. revert H. generalize b. intros b0 (Hn & _ & _ & Hb).
-    split; [exact Hn|]. destruct b0 as [[a l]|]; [right|left; split; [reflexivity|exact Hb]].
-    destruct Hb as (st & rest & -> & H). exists a, st, rest. split; [reflexivity|exact H].
+    pose proof Hspec as H. unfold poll_ok in H. revert H. generalize b. intros b0 (Hn & _ & _ & Hb).
+    split; [exact Hn|]. destruct b0 as [[[a iv'] l]|]; [right|left; split; [reflexivity|exact Hb]].
+    destruct Hb as (st & rest & -> & H). exists a, iv', st, rest. split; [reflexivity|exact H].
   Qed.
 
   Lemma ps_acts : acts t drc dr'.
-  Proof. pose proof (frag_run_spec t Sx HS nid drc Hmid ps_fresh) as H. rewrite Hrun in H. exact (proj1 (proj2 H)). Qed.
+  Proof. exact (proj1 (proj2 Hspec)). Qed.
 
   Lemma ps_ents x : ents_at x (pending dr') =
-    ents_at x (pending drc) ++ match b with Some (a, _) => new_at a x | None => [] end.
-  Proof. pose proof (frag_run_spec t Sx HS nid drc Hmid ps_fresh) as H. rewrite Hrun in H. exact (proj1 (proj2 (proj2 H)) x). Qed.
+    ents_at x (pending drc) ++ match b with Some (a, iv', _) => new_at a iv' x | None => [] end.
+  Proof. exact (proj1 (proj2 (proj2 Hspec)) x). Qed.
 
-  Lemma ps_held : held tk' = match b with Some (a, _) => aw_held a | None => [] end.
-  Proof. unfold held, tk'. cbn [t_cur t_iv]. generalize b. intros [[a l]|]; reflexivity. Qed.
+  (* an id the task has after the poll is below the new counter, in no entry of the driver
+     before the poll, and owned by no other task *)
+  Lemma ps_src id : idsrc nid n old id ->
+    id < n /\ (forall x, ~ In id (ents_at x (pending drc))) /\
+    forall k' tk1 s1, k' <> k -> nth_error ts k' = Some tk1 -> In s1 (owned tk1) -> sid s1 <> id.
+  Proof.
+    destruct ps_cases as (Hn & _). intros [[H1 H2]|Ho].
+    - split; [exact H2|]. split.
+      + intros x Hin. pose proof (ps_fresh x id Hin). lia.
+      + intros k' tk1 s1 _ Hk' Hs1 E1. pose proof (b_own _ _ _ _ Hbase k' tk1 s1 Hk' Hs1). lia.
+    - destruct (Hold id Ho) as (s & Hs & <-). split; [pose proof (b_own _ _ _ _ Hbase k tk s Hk Hs); lia|]. split.
+      + intros x Hin. destruct (Htt x _ Hin) as (k' & tk1 & s1 & Hne & Hk' & Hs1 & _ & E1 & _).
+        apply Hne. exact (b_distinct _ _ _ _ Hbase k' k tk1 tk s1 s Hk' Hk (held_owned _ _ Hs1) Hs E1).
+      + intros k' tk1 s1 Hne Hk' Hs1 E1. apply Hne.
+        exact (b_distinct _ _ _ _ Hbase k' k tk1 tk s1 s Hk' Hk Hs1 Hs E1).
+  Qed.
+
+  Lemma ps_held : held tk' = match b with Some (a, iv', _) => aw_held a iv' | None => [] end.
+  Proof. unfold held, tk'. cbn [t_cur t_iv]. generalize b. intros [[[a iv'] l]|]; reflexivity. Qed.
 
   Lemma ps_held_in s : In s (held tk') ->
-    exists a st rest, b = Some (a, st :: rest) /\ In s (aw_held a) /\ t < deadline s /\ handle s = Some (deadline s) /\ nid <= sid s /\ sid s < n.
+    exists a iv' st rest, b = Some (a, iv', st :: rest) /\ In s (aw_held a iv') /\ t < deadline s /\ handle s = Some (deadline s) /\ idsrc nid n old (sid s).
   Proof.
-    rewrite ps_held. destruct ps_cases as (_ & [(Eb & _)|(a & st & rest & Eb & _ & _ & (_ & _ & _ & Hall))]); rewrite Eb; [intros []|].
-    intros Hin. rewrite Forall_forall in Hall. destruct (Hall s Hin) as (H1 & H2 & H3 & H4). exists a, st, rest. repeat split; assumption.
+    rewrite ps_held. destruct ps_cases as (_ & [(Eb & _)|(a & iv' & st & rest & Eb & _ & _ & (_ & _ & _ & Hall & _))]); rewrite Eb; [intros []|].
+    intros Hin. rewrite Forall_forall in Hall. destruct (Hall s Hin) as (H1 & H2 & H3). exists a, iv', st, rest. repeat split; assumption.
+  Qed.
+
+  Lemma ps_owned s : In s (owned tk') -> idsrc nid n old (sid s).
+  Proof.
+    intros Hin. unfold owned in Hin. apply in_app_or in Hin. destruct Hin as [Hin|Hin].
+    - destruct (ps_held_in s Hin) as (_ & _ & _ & _ & _ & _ & _ & _ & H). exact H.
+    - unfold tk' in Hin. cbn [t_iv] in Hin.
+      destruct ps_cases as (_ & [(Eb & _)|(a & iv' & st & rest & Eb & _ & _ & (_ & _ & _ & _ & Hiv))]); rewrite Eb in Hin; cbn [fr_iv] in Hin; [contradiction|].
+      destruct iv' as [i|]; [|contradiction]. destruct Hin as [<-|[]]. apply Hiv. exists i. split; reflexivity.
   Qed.
 
   Lemma ps_waker id : waker_of own' id =
     if existsb (N.eqb id) (map sid (held tk')) then Some k else waker_of own id.
   Proof.
     unfold own'. rewrite app_nil_r. rewrite ps_held.
-    destruct ps_cases as (_ & [(Eb & _)|(a & st & rest & Eb & _ & _ & (_ & _ & _ & Hall))]); rewrite Eb; cbn [fr_cur held_sleeps].
+    destruct ps_cases as (_ & [(Eb & _)|(a & iv' & st & rest & Eb & _ & _ & (_ & _ & _ & Hall & _))]); rewrite Eb; cbn [fr_cur fr_iv held_sleeps].
     - reflexivity.
     - apply note_polls_held. eapply Forall_impl; [|exact Hall]. cbn beta. intros s (_ & H & _). rewrite H. discriminate.
   Qed.
 
   Lemma ps_tstate : tstate tk0 tk'.
   Proof.
-    unfold tk'. destruct ps_cases as (_ & [(Eb & Ho)|(a & st & rest & Eb & Hf & He & (Hk1 & Hw & Hndp & Hall))]); rewrite Eb.
-    - apply TDn; cbn [t_mod t_start t_steps t_cur t_iv t_fin t_log fr_steps fr_cur]; try assumption; try reflexivity.
+    unfold tk'. destruct ps_cases as (_ & [(Eb & Ho)|(a & iv' & st & rest & Eb & Hf & He & (Hk1 & Hw & Hndp & Hall & _))]); rewrite Eb.
+    - apply TDn; cbn [t_mod t_start t_steps t_cur t_iv t_fin t_log fr_steps fr_cur fr_iv]; try assumption; try reflexivity.
       rewrite Hexp, Ho. reflexivity.
-    - apply (TBl _ _ a st rest); cbn [t_mod t_start t_steps t_cur t_iv t_fin t_log fr_steps fr_cur]; try assumption; try reflexivity.
+    - apply (TBl _ _ a st rest); cbn [t_mod t_start t_steps t_cur t_iv t_fin t_log fr_steps fr_cur fr_iv]; try assumption; try reflexivity.
       + eapply Forall_impl; [|exact Hall]. cbn beta. intros s (_ & H & _). exact H.
       + rewrite Hexp, He, app_assoc. reflexivity.
   Qed.
 
   Lemma ps_nth_other k' : k' <> k -> nth_error ts' k' = nth_error ts k'.
-  Proof. intros H. unfold ts'. apply nth_set_nth_other. intros E; apply H; symmetry; exact E. Qed.
+  Proof. intros H. unfold ts'. apply nth_set_nth_other. intros E1; apply H; symmetry; exact E1. Qed.
 
   Lemma ps_nth_same : nth_error ts' k = Some tk'.
   Proof. unfold ts'. eapply nth_set_nth_same. exact Hk. Qed.
 
   Lemma ps_base : Base ts0 ts' own' n.
   Proof.
-    destruct Hbase as [Hst Hin Hids Hdis]. destruct ps_cases as (Hn & _).
-    assert (Hold : forall k' tk1 s, k' <> k -> nth_error ts' k' = Some tk1 -> In s (held tk1) -> sid s < nid /\ waker_of own (sid s) = Some k').
-    { intros k' tk1 s Hne Hk' Hs. rewrite (ps_nth_other k' Hne) in Hk'. exact (Hids k' tk1 s Hk' Hs). }
+    destruct Hbase as [Hst Hin Hids Hown Hdis]. destruct ps_cases as (Hn & _).
     constructor.
     - unfold ts'. eapply Forall2_set_nth; [exact Hst|exact Hk0|exact ps_tstate].
     - exact Hin.
     - intros k' tk1 s Hk' Hs. rewrite ps_waker. destruct (Nat.eq_dec k' k) as [->|Hne].
-      + rewrite ps_nth_same in Hk'. injection Hk' as <-. destruct (ps_held_in s Hs) as (a & st & rest & _ & _ & _ & _ & _ & Hlt).
-        split; [exact Hlt|]. replace (existsb (N.eqb (sid s)) (map sid (held tk'))) with true; [reflexivity|].
+      + rewrite ps_nth_same in Hk'. injection Hk' as <-. destruct (ps_held_in s Hs) as (_ & _ & _ & _ & _ & _ & _ & _ & Hsrc).
+        split; [exact (proj1 (ps_src _ Hsrc))|]. replace (existsb (N.eqb (sid s)) (map sid (held tk'))) with true; [reflexivity|].
         symmetry. apply existsb_exists. exists (sid s). split; [apply in_map; exact Hs|apply N.eqb_refl].
-      + destruct (Hold k' tk1 s Hne Hk' Hs) as [H1 H2]. split; [lia|].
+      + rewrite (ps_nth_other k' Hne) in Hk'. destruct (Hids k' tk1 s Hk' Hs) as [H1 H2]. split; [lia|].
         replace (existsb (N.eqb (sid s)) (map sid (held tk'))) with false; [exact H2|].
-        symmetry. apply not_true_is_false. intros Hex. apply existsb_exists in Hex. destruct Hex as (i & Hi & E).
-        apply in_map_iff in Hi. destruct Hi as (s' & <- & Hs'). destruct (ps_held_in s' Hs') as (_ & _ & _ & _ & _ & _ & _ & Hge & _). lia.
-    - intros k1 k2 tk1 tk2 s1 s2 H1 H2 B1 B2 E.
+        symmetry. apply not_true_is_false. intros Hex. apply existsb_exists in Hex. destruct Hex as (i & Hi & E1).
+        apply in_map_iff in Hi. destruct Hi as (s' & <- & Hs'). destruct (ps_held_in s' Hs') as (_ & _ & _ & _ & _ & _ & _ & _ & Hsrc).
+        apply (proj2 (proj2 (ps_src _ Hsrc)) k' tk1 s Hne Hk' (held_owned _ _ Hs)). lia.
+    - intros k' tk1 s Hk' Hs. destruct (Nat.eq_dec k' k) as [->|Hne].
+      + rewrite ps_nth_same in Hk'. injection Hk' as <-. exact (proj1 (ps_src _ (ps_owned s Hs))).
+      + rewrite (ps_nth_other k' Hne) in Hk'. pose proof (Hown k' tk1 s Hk' Hs). lia.
+    - intros k1 k2 tk1 tk2 s1 s2 H1 H2 B1 B2 E1.
       destruct (Nat.eq_dec k1 k) as [->|N1], (Nat.eq_dec k2 k) as [->|N2]; [reflexivity| | |].
-      + rewrite ps_nth_same in H1. injection H1 as <-. destruct (ps_held_in s1 B1) as (_ & _ & _ & _ & _ & _ & _ & Hge & _).
-        pose proof (proj1 (Hold k2 tk2 s2 N2 H2 B2)). lia.
-      + rewrite ps_nth_same in H2. injection H2 as <-. destruct (ps_held_in s2 B2) as (_ & _ & _ & _ & _ & _ & _ & Hge & _).
-        pose proof (proj1 (Hold k1 tk1 s1 N1 H1 B1)). lia.
-      + rewrite (ps_nth_other k1 N1) in H1. rewrite (ps_nth_other k2 N2) in H2. exact (Hdis _ _ _ _ _ _ H1 H2 B1 B2 E).
+      + exfalso. rewrite ps_nth_same in H1. injection H1 as <-. rewrite (ps_nth_other k2 N2) in H2.
+        apply (proj2 (proj2 (ps_src _ (ps_owned s1 B1))) k2 tk2 s2 N2 H2 B2). symmetry; exact E1.
+      + exfalso. rewrite ps_nth_same in H2. injection H2 as <-. rewrite (ps_nth_other k1 N1) in H1.
+        apply (proj2 (proj2 (ps_src _ (ps_owned s2 B2))) k1 tk1 s1 N1 H1 B1). exact E1.
+      + rewrite (ps_nth_other k1 N1) in H1. rewrite (ps_nth_other k2 N2) in H2. exact (Hdis _ _ _ _ _ _ H1 H2 B1 B2 E1).
   Qed.
 
   Lemma ps_mid : Mid t dr'.
@@ -173,20 +204,20 @@ Section PollStep.
     assert (Hkr : ~ In k r) by (inversion Hnd; assumption).
     constructor.
     - intros k' tk1 s Hk' Hs Hm Hq. rewrite ps_ents. destruct (Nat.eq_dec k' k) as [->|Hne].
-      + rewrite ps_nth_same in Hk'. injection Hk' as <-. destruct (ps_held_in s Hs) as (a & st & rest & Eb & Hin & _).
+      + rewrite ps_nth_same in Hk'. injection Hk' as <-. destruct (ps_held_in s Hs) as (a & iv' & st & rest & Eb & Hin & _).
         rewrite Eb. apply in_or_app. right. apply new_at_in. exists s. repeat split; [exact Hin].
       + rewrite (ps_nth_other k' Hne) in Hk'. apply in_or_app. left. exact (Hte k' tk1 s Hne Hk' Hs Hm Hq).
-    - intros d id Hin. rewrite ps_ents in Hin. apply in_app_or in Hin. destruct Hin as [Hold|Hnew].
-      + destruct (Htt d id Hold) as (k' & tk1 & s & Hne & Hk' & Hs & Hm & E1 & E2).
+    - intros d id Hin. rewrite ps_ents in Hin. apply in_app_or in Hin. destruct Hin as [Ho|Hnew].
+      + destruct (Htt d id Ho) as (k' & tk1 & s & Hne & Hk' & Hs & Hm & E1 & E2).
         exists k', tk1, s. rewrite (ps_nth_other k' Hne). repeat split; assumption.
-      + destruct ps_cases as (_ & [(Eb & _)|(a & st & rest & Eb & _)]); rewrite Eb in Hnew; [contradiction|].
+      + destruct ps_cases as (_ & [(Eb & _)|(a & iv' & st & rest & Eb & _)]); rewrite Eb in Hnew; [contradiction|].
         apply new_at_in in Hnew. destruct Hnew as (s & Hs & E1 & E2).
         exists k, tk', s. rewrite ps_nth_same, ps_held, Eb. repeat split; try assumption; try (unfold tk'; cbn [t_mod]; exact Hmod).
     - intros d. rewrite ps_ents.
-      destruct ps_cases as (_ & [(Eb & _)|(a & st & rest & Eb & _ & _ & (_ & _ & Hndp & Hall))]); rewrite Eb; [rewrite app_nil_r; apply Htn|].
+      destruct ps_cases as (_ & [(Eb & _)|(a & iv' & st & rest & Eb & _ & _ & (_ & _ & Hndp & Hall & _))]); rewrite Eb; [rewrite app_nil_r; apply Htn|].
       apply NoDup_app_intro; [apply Htn|unfold new_at; apply NoDup_map_filter; exact Hndp|].
-      intros id H1 H2. pose proof (ps_fresh d id H1). apply new_at_in in H2. destruct H2 as (s & Hs & <- & _).
-      rewrite Forall_forall in Hall. destruct (Hall s Hs) as (_ & _ & Hge & _). lia.
+      intros id H1 H2. apply new_at_in in H2. destruct H2 as (s & Hs & <- & _).
+      rewrite Forall_forall in Hall. destruct (Hall s Hs) as (_ & _ & Hsrc). exact (proj1 (proj2 (ps_src _ Hsrc)) d H1).
   Qed.
 
   Lemma ps_live : NwLive drc -> NwLive dr'.
@@ -202,7 +233,7 @@ Section PollStep.
   Lemma ps_spawned : ~ unspawned tk'.
   Proof.
     unfold tk', unspawned. cbn [t_cur t_fin].
-    destruct ps_cases as (_ & [(Eb & _)|(a & st & rest & Eb & _)]); rewrite Eb; cbn [fr_cur fr_steps]; intros [H1 H2]; discriminate.
+    destruct ps_cases as (_ & [(Eb & _)|(a & iv' & st & rest & Eb & _)]); rewrite Eb; cbn [fr_cur fr_steps]; intros [H1 H2]; discriminate.
   Qed.
 
   Lemma ps_runnable k' : In k' r -> runnable ts t m k' -> runnable ts' t m k'.
@@ -213,8 +244,18 @@ Section PollStep.
 End PollStep.
 
 (* ---- the work that is left: steps to go, plus one for a task that is still to be spawned ---- *)
+(* twice the steps to go, plus two for a task that is still to be spawned, plus one for a task whose
+   keep-alive select may block once more (on the re-armed kept timer) within the same step *)
 Definition wt (tk : task) : nat :=
-  (length (t_steps tk) + match t_cur tk, t_fin tk with None, false => 1 | _, _ => 0 end)%nat.
+  (2 * length (t_steps tk) +
+   match t_cur tk with
+   | None => if t_fin tk then 0 else 2
+   | Some (AwKeep true _ _ _) => 1
+   | Some _ => 0
+   end)%nat.
+
+Definition wres (b : option (aw * option interval * list step)) : nat :=
+  (2 * length (fr_steps b) + match fr_cur b with Some (AwKeep true _ _ _) => 1 | _ => 0 end)%nat.
 
 Definition work (ts : list task) : nat := fold_right (fun tk n => (wt tk + n)%nat) 0%nat ts.
 
@@ -227,14 +268,15 @@ Proof.
   - fold (work r) in *. fold (work (set_nth k tk' r)). pose proof (IH k tk tk' Hk). lia.
 Qed.
 
-Lemma frag_run_len t0 steps : forall nid dr, (length (fr_steps (snd (fst (fst (frag_run t0 nid steps dr))))) <= length steps)%nat.
+Lemma frag_run_len t0 steps : forall nid iv dr, (length (fr_steps (snd (fst (fst (frag_run t0 nid iv steps dr))))) <= length steps)%nat.
 Proof.
-  induction steps as [|st r IH]; intros nid dr; cbn [frag_run]; [cbn; lia|].
+  induction steps as [|st r IH]; intros nid iv dr; cbn [frag_run]; [cbn; lia|].
   destruct st as [d|t|d v| | | | |polled d1 d2|d| | | | | |]; cbn [fst snd fr_steps length]; try lia;
   try (destruct v as [x|]; cbn [fst snd fr_steps length]; try lia);
-  try match goal with |- context [if ?c then _ else _] => destruct c; cbn [fst snd fr_steps length]; try lia end;
-  match goal with IHx : forall _ _, _ |- context [frag_run _ ?n0 _ ?d0] =>
-    specialize (IHx n0 d0); destruct (frag_run t0 n0 r d0) as [[[o b] n'] d']; cbn [fst snd] in *; lia end.
+  try (destruct iv as [i|]; cbn [fst snd fr_steps length]; try lia);
+  repeat match goal with |- context [if ?c then _ else _] => destruct c; cbn [fst snd fr_steps length]; try lia end;
+  match goal with IHx : forall _ _ _, _ |- context [frag_run _ ?n0 ?i0 _ ?d0] =>
+    specialize (IHx n0 i0 d0); destruct (frag_run t0 n0 i0 r d0) as [[[o0 b0] n'] d']; cbn [fst snd] in *; lia end.
 Qed.
 
 (* ---- inside an event of module m at instant t, with [q] still to be polled ---- *)
@@ -269,27 +311,59 @@ Qed.
 
 Lemma tstate_unspawned tk0 tk : tstate tk0 tk -> unspawned tk -> tk = tk0.
 Proof.
-  intros [->|a st rest _ _ _ _ Hc _ _ _ _ _ _|_ _ _ _ _ Hf _] [Hc' Hf']; [reflexivity|rewrite Hc in Hc'; discriminate|rewrite Hf in Hf'; discriminate].
+  intros [->|a st rest _ _ _ _ Hc _ _ _ _ _|_ _ _ _ _ Hf _] [Hc' Hf']; [reflexivity|rewrite Hc in Hc'; discriminate|rewrite Hf in Hf'; discriminate].
 Qed.
 
 Lemma tstate_blocked tk0 tk a : tstate tk0 tk -> init_ok tk0 -> t_cur tk = Some a ->
   exists st rest, t_mod tk = t_mod tk0 /\ t_start tk = t_start tk0 /\ t_steps tk = st :: rest /\ Forall frag_step rest /\
-    t_iv tk = None /\ t_fin tk = false /\ aw_kind a /\ Forall (fun s => handle s = Some (deadline s)) (aw_held a) /\
-    NoDup (map sid (aw_held a)) /\ held tk = aw_held a /\
-    expected tk0 = t_log tk ++ aw_rec a ++ exp_run (aw_wake a) rest.
+    t_fin tk = false /\ aw_kind a (t_iv tk) /\ Forall (fun s => handle s = Some (deadline s)) (aw_held a (t_iv tk)) /\
+    NoDup (map sid (aw_held a (t_iv tk))) /\ held tk = aw_held a (t_iv tk) /\
+    expected tk0 = t_log tk ++ aw_rec a (t_iv tk) ++ exp_run (aw_end a (t_iv tk)) (iv_abs (iv_after a (t_iv tk))) rest.
 Proof.
   intros H (_ & I2 & _) Hc.
-  destruct H as [->|a' st rest H1 H2 H3 H4 H5 H6 H7 H8 H9 H10 H11|_ _ _ H4 _ _ _].
+  destruct H as [->|a' st rest H1 H2 H3 H4 H5 H7 H8 H9 H10 H11|_ _ _ H4 _ _ _].
   - rewrite I2 in Hc. discriminate.
-  - rewrite H5 in Hc. injection Hc as ->. exists st, rest. repeat split; try assumption. unfold held. rewrite H5, H6. reflexivity.
+  - rewrite H5 in Hc. injection Hc as ->. exists st, rest. repeat split; try assumption. unfold held. rewrite H5. reflexivity.
   - rewrite H4 in Hc. discriminate.
 Qed.
 
-(* the future a woken task was blocked on completes: its Sleep that is still registered is dropped *)
-Lemma woken_done ts0 ts own nid t m k r tk a dr :
+Lemma aw_kind_idle a iv : aw_kind a iv -> a <> AwTick -> iv_idle iv.
+Proof.
+  destruct a as [s|v dl|biased tie sa sb| | | | |rearm d3 s sx|pre s]; try contradiction; cbn [aw_kind]; try (intros H _; exact H).
+  - destruct v; try contradiction. intros H _; exact H.
+  - intros [H _] _; exact H.
+  - intros [H _] _; exact H.
+Qed.
+
+Lemma iv_after_idle a iv : aw_kind a iv -> iv_idle (iv_after a iv).
+Proof.
+  intros Hk. destruct a as [s|v dl|biased tie sa sb| | | | |rearm d3 s sx|pre s]; try contradiction; cbn [iv_after];
+    try (apply (aw_kind_idle _ _ Hk); discriminate).
+  destruct iv as [i|]; [reflexivity|exact I].
+Qed.
+
+Lemma iv_after_ids a iv id : iv_ids (iv_after a iv) id -> iv_ids iv id.
+Proof.
+  destruct a; cbn [iv_after]; try (intros H; exact H).
+  destruct iv as [i|]; [|intros H; exact H]. intros (i' & E1 & ->). injection E1 as <-. exists i. split; reflexivity.
+Qed.
+
+(* when the woken task does not block again, its await completes at the wake instant *)
+Lemma aw_end_noreblock a iv t : aw_kind a iv -> aw_wake a iv = t -> aw_reblock t a = None -> aw_end a iv = t.
+Proof.
+  intros Hk Hw Hrb. destruct a as [s|v dl|biased tie sa sb| | | | |rearm d3 s sx|pre s]; try contradiction; try exact Hw.
+  destruct Hk as [_ Hd3]. cbn [aw_wake] in Hw. cbn [aw_end].
+  destruct (deadline s <=? deadline sx) eqn:E; [lia|].
+  destruct rearm; [|lia]. cbn [aw_reblock] in Hrb. rewrite (dl_fin _ _ Hd3) in Hrb.
+  replace (deadline s <=? t) with false in Hrb by lia. destruct (t <? t + d3) eqn:E3; [discriminate|]. lia.
+Qed.
+
+(* the future a woken task was blocked on completes: its Sleep that is still registered is
+   dropped (or, for the kept timer that is re-armed, reset -- which removes its entry as well) *)
+Lemma woken_done ts0 ts own nid t m k r tk a iv dr :
   Base ts0 ts own nid -> NoDup (k :: r) -> Mid t dr -> Tie ts t (k :: r) m dr ->
-  nth_error ts k = Some tk -> t_mod tk = m -> t_cur tk = Some a -> aw_kind a -> held tk = aw_held a ->
-  Forall (fun s => handle s = Some (deadline s)) (aw_held a) -> NoDup (map sid (aw_held a)) -> aw_wake a = t ->
+  nth_error ts k = Some tk -> t_mod tk = m -> t_cur tk = Some a -> aw_kind a iv -> held tk = aw_held a iv ->
+  Forall (fun s => handle s = Some (deadline s)) (aw_held a iv) -> NoDup (map sid (aw_held a iv)) -> aw_wake a iv = t ->
   let drc := aw_done t a dr in
   acts t dr drc /\
   (forall k' tk1 s, k' <> k -> nth_error ts k' = Some tk1 -> In s (held tk1) -> t_mod tk1 = m ->
@@ -299,13 +373,14 @@ Lemma woken_done ts0 ts own nid t m k r tk a dr :
   (forall d, NoDup (ents_at d (pending drc))).
 Proof.
   intros Hbase Hnd Hmid [He Ht Hn] Hk Hmod Hc Hkind Hheld Hh Hndp Hw. cbn zeta.
+  assert (Hkr : ~ In k r) by (inversion Hnd; assumption).
   (* entries of task k that are still in the driver have a deadline after t *)
   assert (Hown : forall d id, In id (ents_at d (pending dr)) -> forall s, In s (held tk) -> sid s = id -> deadline s = d /\ t < d).
   { intros d id Hin s Hs E. destruct (Ht d id Hin) as (k' & tk1 & s' & Hk' & Hs' & _ & E1 & E2).
-    assert (k' = k) by (apply (b_distinct _ _ _ _ Hbase k' k tk1 tk s' s Hk' Hk Hs' Hs); congruence). subst k'.
+    assert (k' = k) by (apply (b_distinct _ _ _ _ Hbase k' k tk1 tk s' s Hk' Hk (held_owned _ _ Hs') (held_owned _ _ Hs)); congruence). subst k'.
     rewrite Hk in Hk'. injection Hk' as <-.
     assert (s' = s).
-    { rewrite Hheld in Hs, Hs'. clear -Hndp Hs Hs' E E1. induction (aw_held a) as [|x l IH]; [contradiction|].
+    { rewrite Hheld in Hs, Hs'. clear -Hndp Hs Hs' E E1. induction (aw_held a iv) as [|x l IH]; [contradiction|].
       cbn [map] in Hndp. inversion Hndp as [|? ? Hx Hl]; subst. destruct Hs as [->|Hs], Hs' as [->|Hs']; try reflexivity.
       - exfalso. apply Hx. apply in_map_iff. exists s'. split; [congruence|exact Hs'].
       - exfalso. apply Hx. apply in_map_iff. exists s. split; [congruence|exact Hs].
@@ -317,37 +392,121 @@ Proof.
   { intros d id Hin Hno. destruct (Ht d id Hin) as (k' & tk1 & s' & Hk' & Hs' & Hm' & E1 & E2).
     exists k', tk1, s'. repeat split; try assumption. intros ->. rewrite Hk in Hk'. injection Hk' as <-. exact (Hno s' Hs' E1). }
   assert (Hkeep : forall k' tk1 s, k' <> k -> nth_error ts k' = Some tk1 -> In s (held tk1) -> forall s0, In s0 (held tk) -> sid s <> sid s0).
-  { intros k' tk1 s Hne Hk' Hs s0 Hs0 E. apply Hne. exact (b_distinct _ _ _ _ Hbase k' k tk1 tk s s0 Hk' Hk Hs Hs0 E). }
-  destruct a as [s|v dl| | | | | | |]; try contradiction.
-  - (* a single Sleep: it was popped; nothing of task k is left in the driver *)
-    cbn [aw_done]. split; [apply acts_refl|]. split; [|split; [|exact Hn]].
+  { intros k' tk1 s Hne Hk' Hs s0 Hs0 E. apply Hne. exact (b_distinct _ _ _ _ Hbase k' k tk1 tk s s0 Hk' Hk (held_owned _ _ Hs) (held_owned _ _ Hs0) E). }
+  (* an await state with a single Sleep: it was popped; nothing of task k is left in the driver *)
+  assert (Hsingle : forall s0, aw_held a iv = [s0] -> deadline s0 = t ->
+     acts t dr dr /\
+     (forall k' tk1 s, k' <> k -> nth_error ts k' = Some tk1 -> In s (held tk1) -> t_mod tk1 = m ->
+        (~ In k' r \/ t < deadline s) -> In (sid s) (ents_at (deadline s) (pending dr))) /\
+     (forall d id, In id (ents_at d (pending dr)) ->
+        exists k' tk1 s, k' <> k /\ nth_error ts k' = Some tk1 /\ In s (held tk1) /\ t_mod tk1 = m /\ sid s = id /\ deadline s = d) /\
+     (forall d, NoDup (ents_at d (pending dr)))).
+  { intros s0 E0 Hd0. split; [apply acts_refl|]. split; [|split; [|exact Hn]].
     + intros k' tk1 s1 Hne Hk' Hs1 Hm1 Hq. apply (He k' tk1 s1 Hk' Hs1 Hm1). destruct Hq as [Hq|Hq]; [left|right; exact Hq].
       intros [E|E]; [apply Hne; symmetry; exact E|exact (Hq E)].
-    + intros d id Hin. apply (Hother d id Hin). intros s0 Hs0 E. destruct (Hown d id Hin s0 Hs0 E) as [E2 Hlt].
-      rewrite Hheld in Hs0. cbn [aw_held held_sleeps] in Hs0. destruct Hs0 as [<-|[]]. cbn [aw_wake] in Hw. lia.
-  - destruct v as [s| | |]; try contradiction. cbn [aw_wake] in Hw. cbn [aw_held held_sleeps] in *.
-    (* the Sleep that did not fire is removed by its id; [sr]: that Sleep *)
-    set (sr := if deadline s <=? t then dl else s).
-    assert (Hdone : aw_done t (AwTimeout (VSleep s) dl) dr = drop_entry (sid sr) (deadline sr) dr) by (unfold sr; cbn [aw_done]; destruct (deadline s <=? t); reflexivity).
-    rewrite Hdone. assert (Hsr : In sr (held tk)) by (rewrite Hheld; unfold sr; destruct (deadline s <=? t); [right; left|left]; reflexivity).
-    split; [apply (acts_one t dr (DropEntry (sid sr) (deadline sr))); exact I|].
-    assert (Hents : forall x id, In id (ents_at x (pending (drop_entry (sid sr) (deadline sr) dr))) <->
-                                 In id (ents_at x (pending dr)) /\ (x = deadline sr -> id <> sid sr)).
-    { intros x id. cbn [drop_entry set_pending pending]. rewrite ents_at_remove. destruct (x =? deadline sr) eqn:E.
-      - replace x with (deadline sr) by lia. rewrite (rm_in_iff _ _ _ (Hn (deadline sr))). split; [intros [H1 H2]; split; [exact H1|intros _; exact H2]|intros [H1 H2]; split; [exact H1|exact (H2 eq_refl)]].
-      - split; [intros H; split; [exact H|intros E'; lia]|intros [H _]; exact H]. }
-    split; [|split].
+    + intros d id Hin. apply (Hother d id Hin). intros s1 Hs1 E. destruct (Hown d id Hin s1 Hs1 E) as [E2 Hlt].
+      rewrite Hheld, E0 in Hs1. destruct Hs1 as [<-|[]]. lia. }
+  (* an await state with two Sleeps: [sr], the one that did not fire, is taken out of the driver by its id *)
+  assert (Hrem : forall drc sr, In sr (held tk) -> (forall s0, In s0 (held tk) -> t < deadline s0 -> s0 = sr) ->
+     (forall x id, In id (ents_at x (pending drc)) <-> In id (ents_at x (pending dr)) /\ (x = deadline sr -> id <> sid sr)) ->
+     (forall d, NoDup (ents_at d (pending drc))) ->
+     (forall k' tk1 s, k' <> k -> nth_error ts k' = Some tk1 -> In s (held tk1) -> t_mod tk1 = m ->
+        (~ In k' r \/ t < deadline s) -> In (sid s) (ents_at (deadline s) (pending drc))) /\
+     (forall d id, In id (ents_at d (pending drc)) ->
+        exists k' tk1 s, k' <> k /\ nth_error ts k' = Some tk1 /\ In s (held tk1) /\ t_mod tk1 = m /\ sid s = id /\ deadline s = d) /\
+     (forall d, NoDup (ents_at d (pending drc)))).
+  { intros drc sr Hsr Honly Hents Hndc. split; [|split; [|exact Hndc]].
     + intros k' tk1 s1 Hne Hk' Hs1 Hm1 Hq. apply Hents. split.
       * apply (He k' tk1 s1 Hk' Hs1 Hm1). destruct Hq as [Hq|Hq]; [left|right; exact Hq].
         intros [E|E]; [apply Hne; symmetry; exact E|exact (Hq E)].
       * intros _. exact (Hkeep k' tk1 s1 Hne Hk' Hs1 sr Hsr).
     + intros d id Hin. apply Hents in Hin. destruct Hin as [Hin Hnot]. apply (Hother d id Hin).
       intros s0 Hs0 E. destruct (Hown d id Hin s0 Hs0 E) as [E2 Hlt].
-      rewrite Hheld in Hs0. destruct Hs0 as [<-|[<-|[]]].
-      * (* s is still registered, so it is not the one that fired: it is sr *)
-        assert (sr = s) by (unfold sr; replace (deadline s <=? t) with false by lia; reflexivity). apply (Hnot ltac:(congruence)). congruence.
-      * assert (sr = dl) by (unfold sr; replace (deadline s <=? t) with true by lia; reflexivity). apply (Hnot ltac:(congruence)). congruence.
-    + intros d. cbn [drop_entry set_pending pending]. rewrite ents_at_remove. destruct (d =? deadline sr); [apply rm_nodup|]; apply Hn.
+      assert (s0 = sr) by (apply Honly; [exact Hs0|lia]). subst s0. exact (Hnot (eq_sym E2) (eq_sym E)). }
+  assert (Hdrop : forall sr, (forall x id, In id (ents_at x (pending (drop_entry (sid sr) (deadline sr) dr))) <->
+                                 In id (ents_at x (pending dr)) /\ (x = deadline sr -> id <> sid sr)) /\
+                             (forall d, NoDup (ents_at d (pending (drop_entry (sid sr) (deadline sr) dr))))).
+  { intros sr. split.
+    - intros x id. cbn [drop_entry set_pending pending]. rewrite ents_at_remove. destruct (x =? deadline sr) eqn:E.
+      + replace x with (deadline sr) by lia. rewrite (rm_in_iff _ _ _ (Hn (deadline sr))). split; [intros [H1 H2]; split; [exact H1|intros _; exact H2]|intros [H1 H2]; split; [exact H1|exact (H2 eq_refl)]].
+      + split; [intros H; split; [exact H|intros E'; lia]|intros [H _]; exact H].
+    - intros d. cbn [drop_entry set_pending pending]. rewrite ents_at_remove. destruct (d =? deadline sr); [apply rm_nodup|]; apply Hn. }
+  (* of two held Sleeps with min deadline t, the one (if any) with a later deadline *)
+  assert (Hpair : forall s1 s2, aw_held a iv = [s1; s2] -> N.min (deadline s1) (deadline s2) = t ->
+     let sr := if deadline s1 <=? t then s2 else s1 in
+     In sr (held tk) /\ forall s0, In s0 (held tk) -> t < deadline s0 -> s0 = sr).
+  { intros s1 s2 E0 Hmin. cbn zeta. rewrite Hheld, E0. split.
+    - destruct (deadline s1 <=? t); [right; left|left]; reflexivity.
+    - intros s0 [<-|[<-|[]]] Hlt.
+      + replace (deadline s1 <=? t) with false by lia. reflexivity.
+      + replace (deadline s1 <=? t) with true by lia. reflexivity. }
+  destruct a as [s|v dl|biased tie sa sb| | | | |rearm d3 s sx|pre s]; try contradiction.
+  - cbn [aw_done]. apply (Hsingle s); [reflexivity|exact Hw].
+  - destruct v as [s| | |]; try contradiction. cbn [aw_wake] in Hw.
+    destruct (Hpair s dl eq_refl Hw) as [Hsr Honly]. set (sr := if deadline s <=? t then dl else s) in *.
+    assert (Hdone : aw_done t (AwTimeout (VSleep s) dl) dr = drop_entry (sid sr) (deadline sr) dr) by (unfold sr; cbn [aw_done]; destruct (deadline s <=? t); reflexivity).
+    rewrite Hdone. split; [apply (acts_one t dr (DropEntry (sid sr) (deadline sr))); exact I|].
+    destruct (Hdrop sr) as [Hents Hndc]. exact (Hrem _ sr Hsr Honly Hents Hndc).
+  - (* select over two sleeps: the loser is dropped *)
+    cbn [aw_wake] in Hw. destruct (Hpair sa sb eq_refl Hw) as [Hsr Honly]. set (sr := if deadline sa <=? t then sb else sa) in *.
+    assert (Hdone : aw_done t (AwSelect biased tie sa sb) dr = drop_entry (sid sr) (deadline sr) dr) by (unfold sr; cbn [aw_done]; destruct (deadline sa <=? t); reflexivity).
+    rewrite Hdone. split; [apply (acts_one t dr (DropEntry (sid sr) (deadline sr))); exact I|].
+    destruct (Hdrop sr) as [Hents Hndc]. exact (Hrem _ sr Hsr Honly Hents Hndc).
+  - (* the tick that was waited for *)
+    destruct iv as [i|]; [|contradiction Hkind; reflexivity]. cbn [aw_done]. apply (Hsingle (iv_delay i)); [reflexivity|exact Hw].
+  - (* the keep-alive select *)
+    cbn [aw_wake] in Hw. destruct (Hpair s sx eq_refl Hw) as [Hsr Honly].
+    cbn [aw_done]. destruct (deadline s <=? t) eqn:E.
+    + split; [apply (acts_one t dr (DropEntry (sid sx) (deadline sx))); exact I|].
+      destruct (Hdrop sx) as [Hents Hndc]. exact (Hrem _ sx Hsr Honly Hents Hndc).
+    + destruct rearm.
+      * (* reset of the kept timer, which is still registered *)
+        split; [apply (acts_one t dr (ResetEntry (sid s) (deadline s) (dl t d3))); exact I|].
+        assert (Hreg : In (sid s) (ents_at (deadline s) (pending dr))).
+        { apply (He k tk s Hk Hsr Hmod). right. lia. }
+        assert (Hfar : dl t d3 <> deadline s -> ~ In (sid s) (ents_at (dl t d3) (pending dr))).
+        { intros Hne Hin. destruct (Hown _ _ Hin s Hsr eq_refl) as [E1 _]. exact (Hne (eq_sym E1)). }
+        pose proof (fun x => reset_existing_ents (sid s) (deadline s) (dl t d3) dr x (mid_sorted _ _ Hmid) Hreg (Hn (deadline s)) Hfar) as Hre.
+        apply (Hrem _ s Hsr Honly).
+        -- intros x id. rewrite Hre. destruct (x =? deadline s) eqn:E1.
+           ++ replace x with (deadline s) by lia. rewrite (rm_in_iff _ _ _ (Hn (deadline s))). split; [intros [H1 H2]; split; [exact H1|intros _; exact H2]|intros [H1 H2]; split; [exact H1|exact (H2 eq_refl)]].
+           ++ split; [intros H; split; [exact H|intros E'; lia]|intros [H _]; exact H].
+        -- intros d. rewrite Hre. destruct (d =? deadline s); [apply rm_nodup|]; apply Hn.
+      * split; [apply (acts_one t dr (DropEntry (sid s) (deadline s))); exact I|].
+        destruct (Hdrop s) as [Hents Hndc]. exact (Hrem _ s Hsr Honly Hents Hndc).
+  - (* the re-armed kept timer *)
+    cbn [aw_done]. apply (Hsingle s); [reflexivity|exact Hw].
+Qed.
+
+(* the woken task blocks again at once: on the kept timer, re-armed for a later instant *)
+Lemma reblock_ok t nid (old : N -> Prop) drc a a' iv rest st :
+  aw_kind a iv -> aw_wake a iv = t -> aw_reblock t a = Some a' -> Forall frag_step rest ->
+  sorted (pending drc) ->
+  (forall s, In s (aw_held a iv) -> old (sid s)) -> (forall id, iv_ids iv id -> old id) ->
+  exists pre s', a' = AwThen pre s' /\
+    poll_ok t nid old drc (aw_rec a iv ++ exp_run (aw_end a iv) (iv_abs (iv_after a iv)) rest)
+      ([], Some (a', iv, st :: rest), nid, register (sid s') (deadline s') drc) /\
+    (wres (Some (a', iv, st :: rest)) + 1 <= 2 * length (st :: rest) + match a with AwKeep true _ _ _ => 1 | _ => 0 end)%nat.
+Proof.
+  intros Hk Hw Hrb Hrest Hs Hold Hivo. destruct a as [s|v dl| | | | | |rearm d3 s sx|pre s]; try discriminate.
+  destruct rearm; [|discriminate]. destruct Hk as [Hi Hd3]. cbn [aw_reblock] in Hrb. rewrite (dl_fin _ _ Hd3) in Hrb.
+  destruct (deadline s <=? t) eqn:E; [discriminate|]. destruct (t <? t + d3) eqn:E3; [|discriminate]. injection Hrb as <-.
+  cbn [aw_wake] in Hw. exists [t; 1], (reg (sid s) (t + d3)). split; [reflexivity|]. split.
+  - unfold poll_ok. split; [lia|]. split; [apply (acts_one t drc (Register (sid s) (t + d3))); cbn [op_wf]; lia|]. split.
+    + intros y. cbn [register set_pending pending reg sid deadline]. rewrite (ents_at_add _ _ _ _ Hs).
+      unfold new_at. cbn [aw_held held_sleeps filter reg deadline sid map].
+      destruct (y =? t + d3) eqn:E1.
+      * replace y with (t + d3) by lia. rewrite N.eqb_refl. reflexivity.
+      * replace (t + d3 =? y) with false by lia. rewrite app_nil_r. reflexivity.
+    + exists st, rest. split; [reflexivity|]. split; [exact Hrest|].
+      cbn [aw_rec aw_end aw_wake reg deadline app iv_after]. split.
+      * replace (deadline s <=? deadline sx) with false by lia. replace (deadline sx) with t by lia. reflexivity.
+      * unfold blocked_ok. cbn [aw_kind aw_wake aw_held held_sleeps reg deadline sid handle map].
+        split; [exact Hi|]. split; [lia|]. split; [repeat constructor; intros []|]. split.
+        -- constructor; [|constructor]. unfold reg; cbn [deadline handle sid]. split; [lia|]. split; [reflexivity|].
+           right. apply Hold. left; reflexivity.
+        -- intros id Hid. right. exact (Hivo id Hid).
+  - unfold wres. cbn [fr_steps fr_cur]. lia.
 Qed.
 
 (* one poll *)
@@ -366,45 +525,99 @@ Proof.
   destruct (Forall2_nth _ _ _ _ _ (b_states _ _ _ _ Hbase) Hk) as (tk0 & Hk0 & Hts).
   assert (Hi0 : init_ok tk0).
   { pose proof (b_init _ _ _ _ Hbase) as Hall. rewrite Forall_forall in Hall. apply Hall. eapply nth_error_In; exact Hk0. }
-  (* the common shape of both cases: after the awaited future (if any) has completed, the task runs [Sx] from scratch on driver [drc] *)
-  assert (Hgen : exists L Sx drc, Forall frag_step Sx /\ expected tk0 = L ++ exp_run t Sx /\ t_fin tk = false /\
-            t_mod tk = t_mod tk0 /\ t_start tk = t_start tk0 /\ (length Sx + 1 <= wt tk)%nat /\
+  assert (Hfresh0 : forall x id, In id (ents_at x (pending (drv_of w m))) -> id < w_nid w).
+  { intros x id Hin. destruct (tie_task _ _ _ _ _ Htie x id Hin) as (k' & tk1 & s & Hk' & Hs & _ & E1 & _). rewrite <- E1.
+    exact (proj1 (b_ids _ _ _ _ Hbase k' tk1 s Hk' Hs)). }
+  (* the common shape of all cases: after the awaited future (if any) has completed -- driver [drc] -- the poll leaves
+     a result that meets [poll_ok] against the log [E] still demanded *)
+  assert (Hgen : exists L E drc (old : N -> Prop) o b n dr',
+            expected tk0 = L ++ E /\ t_fin tk = false /\ t_mod tk = t_mod tk0 /\ t_start tk = t_start tk0 /\
             run_steps t m k (t_steps tk) (t_cur tk) (t_iv tk) (drv_of w m) (w_nid w) (t_log tk) (w_mail w) =
-            run_steps t m k Sx None None drc (w_nid w) L [] /\
+              (fr_steps b, fr_cur b, fr_iv b, dr', n, L ++ o, false, []) /\
+            poll_ok t (w_nid w) old drc E (o, b, n, dr') /\
+            (forall id, old id -> exists s, In s (owned tk) /\ sid s = id) /\
+            (wres b + 1 <= wt tk)%nat /\
             acts t (drv_of w m) drc /\ NwLive drc /\
             (forall k' tk1 s, k' <> k -> nth_error (w_tasks w) k' = Some tk1 -> In s (held tk1) -> t_mod tk1 = m ->
                (~ In k' r \/ t < deadline s) -> In (sid s) (ents_at (deadline s) (pending drc))) /\
             (forall d id, In id (ents_at d (pending drc)) ->
                exists k' tk1 s, k' <> k /\ nth_error (w_tasks w) k' = Some tk1 /\ In s (held tk1) /\ t_mod tk1 = m /\ sid s = id /\ deadline s = d) /\
             (forall d, NoDup (ents_at d (pending drc)))).
-  { destruct Hcase as [(Hun & Hst)|(a & Hc & Hwk)].
+  { (* a task that runs [Sx] from scratch, with interval iv0, on driver drc *)
+    assert (Hscratch : forall L Sx drc iv0, Forall frag_step Sx -> iv_idle iv0 -> Mid t drc ->
+              (forall x id, In id (ents_at x (pending drc)) -> id < w_nid w) ->
+              run_steps t m k (t_steps tk) (t_cur tk) (t_iv tk) (drv_of w m) (w_nid w) (t_log tk) (w_mail w) =
+                run_steps t m k Sx None iv0 drc (w_nid w) L [] ->
+              exists o b n dr',
+                run_steps t m k (t_steps tk) (t_cur tk) (t_iv tk) (drv_of w m) (w_nid w) (t_log tk) (w_mail w) =
+                  (fr_steps b, fr_cur b, fr_iv b, dr', n, L ++ o, false, []) /\
+                poll_ok t (w_nid w) (iv_ids iv0) drc (exp_run t (iv_abs iv0) Sx) (o, b, n, dr') /\
+                (wres b <= 2 * length Sx + 1)%nat).
+    { intros L Sx drc iv0 HS Hidle Hmidc Hfresh Hrs.
+      rewrite (run_steps_frag t m k Sx HS iv0 _ _ _ _ Hidle) in Hrs.
+      pose proof (frag_run_spec t Sx HS (w_nid w) iv0 drc Hidle Hmidc Hfresh) as Hspec.
+      pose proof (frag_run_len t Sx (w_nid w) iv0 drc) as Hl.
+      destruct (frag_run t (w_nid w) iv0 Sx drc) as [[[o b] n] dr']. cbn [fst snd] in Hl.
+      exists o, b, n, dr'. split; [exact Hrs|]. split; [exact Hspec|].
+      unfold wres. destruct (fr_cur b) as [[]|]; try lia. destruct rearm; lia. }
+    destruct Hcase as [(Hun & Hst)|(a & Hc & Hwk)].
     - pose proof (tstate_unspawned _ _ Hts Hun) as ->. destruct Hi0 as (I1 & I2 & I3 & I4 & I5 & I6).
-      exists [], (t_steps tk0), (drv_of w m). rewrite Hmail, I2, I3, I4.
       destruct Htie as [He Ht Hn].
-      split; [exact I1|]. split; [unfold expected; rewrite Hst; reflexivity|]. split; [exact I5|]. split; [reflexivity|]. split; [reflexivity|].
-      split; [unfold wt; rewrite I2, I5; lia|]. split; [reflexivity|]. split; [apply acts_refl|]. split; [exact Hlive|].
+      destruct (Hscratch [] (t_steps tk0) (drv_of w m) None I1 I Hmid Hfresh0) as (o & b & n & dr' & Hrs & Hspec & Hwr).
+      { rewrite Hmail, I2, I3, I4. reflexivity. }
+      exists [], (exp_run t (iv_abs None) (t_steps tk0)), (drv_of w m), (iv_ids None), o, b, n, dr'.
+      split; [unfold expected; rewrite Hst; reflexivity|]. split; [exact I5|]. split; [reflexivity|]. split; [reflexivity|].
+      split; [exact Hrs|]. split; [exact Hspec|]. split; [intros id (i & E & _); discriminate|].
+      split; [unfold wt; rewrite I2, I5; lia|].
+      split; [apply acts_refl|]. split; [exact Hlive|].
       split; [|split; [|exact Hn]].
       + intros k' tk1 s Hne Hk' Hs Hm1 Hq. apply (He k' tk1 s Hk' Hs Hm1). destruct Hq as [Hq|Hq]; [left|right; exact Hq].
         intros [E|E]; [apply Hne; symmetry; exact E|exact (Hq E)].
       + intros d id Hin. destruct (Ht d id Hin) as (k' & tk1 & s & Hk' & Hs & Hm1 & E1 & E2).
         exists k', tk1, s. repeat split; try assumption. intros ->. rewrite Hk in Hk'. injection Hk' as <-.
         unfold held in Hs. rewrite I2 in Hs. contradiction.
-    - destruct (tstate_blocked _ _ _ Hts Hi0 Hc) as (st & rest & H1 & H2 & H3 & H4 & H6 & H7 & Hkind & Hh & Hndp & Hheld & H8).
-      destruct (woken_done ts0 (w_tasks w) (w_owner w) (w_nid w) t m k r tk a (drv_of w m) Hbase Hnd Hmid Htie Hk Hmod Hc Hkind Hheld Hh Hndp Hwk)
+    - destruct (tstate_blocked _ _ _ Hts Hi0 Hc) as (st & rest & H1 & H2 & H3 & H4 & H7 & Hkind & Hh & Hndp & Hheld & H8).
+      destruct (woken_done ts0 (w_tasks w) (w_owner w) (w_nid w) t m k r tk a (t_iv tk) (drv_of w m) Hbase Hnd Hmid Htie Hk Hmod Hc Hkind Hheld Hh Hndp Hwk)
         as (Ha & Ge & Gt & Gn).
-      exists (t_log tk ++ aw_rec a), rest, (aw_done t a (drv_of w m)). rewrite Hmail, H3, Hc, H6.
-      split; [exact H4|]. split; [rewrite H8, Hwk, <- app_assoc; reflexivity|]. split; [exact H7|]. split; [exact H1|]. split; [exact H2|].
-      split; [unfold wt; rewrite H3; cbn [length]; lia|]. split; [apply run_steps_woken; assumption|]. split; [exact Ha|].
-      split; [|split; [exact Ge|split; [exact Gt|exact Gn]]].
-      (* next_wakeup was cleared when the task was woken *)
-      intros x Hx. destruct Ha as (ops & _ & Eq). rewrite Eq in Hx. rewrite (proj1 (apply_ops_rest_nw ops _)) in Hx.
-      rewrite (Hnwq k tk a (or_introl eq_refl) Hk Hc) in Hx. discriminate. }
-  destruct Hgen as (L & Sx & drc & HS & Hexp & Hfin & Hm0 & Hs0 & Hwt & Hrs & Hac & Hlc & Ge & Gt & Gn).
+      assert (Hmidc : Mid t (aw_done t a (drv_of w m))) by exact (acts_mid _ _ _ Ha Hmid).
+      assert (Hfreshc : forall x id, In id (ents_at x (pending (aw_done t a (drv_of w m)))) -> id < w_nid w).
+      { intros x id Hin. destruct (Gt x id Hin) as (k' & tk1 & s & _ & Hk' & Hs & _ & E1 & _). rewrite <- E1.
+        exact (proj1 (b_ids _ _ _ _ Hbase k' tk1 s Hk' Hs)). }
+      assert (Hlc : NwLive (aw_done t a (drv_of w m))).
+      { (* next_wakeup was cleared when the task was woken *)
+        intros x Hx. destruct Ha as (ops & _ & Eq). rewrite Eq in Hx. rewrite (proj1 (apply_ops_rest_nw ops _)) in Hx.
+        rewrite (Hnwq k tk a (or_introl eq_refl) Hk Hc) in Hx. discriminate. }
+      assert (Hivown : forall id, iv_ids (t_iv tk) id -> exists s, In s (owned tk) /\ sid s = id).
+      { intros id (i & Ei & ->). exists (iv_delay i). split; [|reflexivity].
+        unfold owned. rewrite Ei. apply in_or_app. right. left. reflexivity. }
+      destruct (aw_reblock t a) as [a'|] eqn:Erb.
+      + (* blocked again at once *)
+        set (old := fun id => exists s, In s (owned tk) /\ sid s = id).
+        destruct (reblock_ok t (w_nid w) old (aw_done t a (drv_of w m)) a a' (t_iv tk) rest st Hkind Hwk Erb H4 (mid_sorted _ _ Hmidc))
+          as (pre & s' & Ea' & Hspec & Hwr).
+        { intros s Hs. exists s. split; [apply held_owned; rewrite Hheld; exact Hs|reflexivity]. }
+        { exact Hivown. }
+        destruct (run_steps_reblock t m k st rest a a' (t_iv tk) (drv_of w m) (w_nid w) (t_log tk) [] Hkind Hh Hwk Erb) as (pre2 & s2 & Ea2 & Hrs).
+        rewrite Ea' in Ea2. injection Ea2 as <- <-.
+        exists (t_log tk), (aw_rec a (t_iv tk) ++ exp_run (aw_end a (t_iv tk)) (iv_abs (iv_after a (t_iv tk))) rest),
+               (aw_done t a (drv_of w m)), old, [], (Some (a', t_iv tk, st :: rest)), (w_nid w), (register (sid s') (deadline s') (aw_done t a (drv_of w m))).
+        split; [exact H8|]. split; [exact H7|]. split; [exact H1|]. split; [exact H2|].
+        split; [rewrite Hmail, H3, Hc, app_nil_r; exact Hrs|]. split; [exact Hspec|]. split; [intros id H; exact H|].
+        split; [unfold wt; rewrite H3, Hc; destruct a as [| | | | | | |[] ? ? ?|]; cbn [length] in *; lia|].
+        split; [exact Ha|]. split; [exact Hlc|]. split; [exact Ge|split; [exact Gt|exact Gn]].
+      + destruct (Hscratch (t_log tk ++ aw_rec a (t_iv tk)) rest (aw_done t a (drv_of w m)) (iv_after a (t_iv tk)) H4
+                    (iv_after_idle _ _ Hkind) Hmidc Hfreshc) as (o & b & n & dr' & Hrs & Hspec & Hwr).
+        { rewrite Hmail, H3, Hc. apply run_steps_woken; assumption. }
+        exists (t_log tk ++ aw_rec a (t_iv tk)), (exp_run t (iv_abs (iv_after a (t_iv tk))) rest), (aw_done t a (drv_of w m)),
+               (iv_ids (iv_after a (t_iv tk))), o, b, n, dr'.
+        split; [rewrite H8, (aw_end_noreblock _ _ _ Hkind Hwk Erb), <- app_assoc; reflexivity|]. split; [exact H7|]. split; [exact H1|]. split; [exact H2|].
+        split; [exact Hrs|]. split; [exact Hspec|]. split; [intros id Hid; exact (Hivown id (iv_after_ids _ _ _ Hid))|].
+        split; [unfold wt; rewrite H3; cbn [length]; lia|].
+        split; [exact Ha|]. split; [exact Hlc|]. split; [exact Ge|split; [exact Gt|exact Gn]]. }
+  destruct Hgen as (L & E & drc & old & o & b & n & dr' & Hexp & Hfin & Hm0 & Hs0 & Hrs & Hspec & Hold & Hwt & Hac & Hlc & Ge & Gt & Gn).
   assert (Hmidc : Mid t drc) by exact (acts_mid _ _ _ Hac Hmid).
-  rewrite (run_steps_frag t m k Sx HS) in Hrs. destruct (frag_run t (w_nid w) Sx drc) as [[[o b] n] dr'] eqn:Efr.
   destruct (poll_task_eq true t m k w tk _ _ _ _ _ _ _ _ Hk Hfin Hrs) as (Hsw & Hfes & Hnow & Hdr & Hoth & Htasks & Hnid & Hown & Hml).
-  assert (Hnn : w_nid w <= n).
-  { refine (proj1 (ps_cases ts0 (w_tasks w) (w_owner w) (w_nid w) drc t m k _ _ _ _ _ Hbase Hmidc Gt HS Efr)). }
+  assert (Hnn : w_nid w <= n) by exact (proj1 Hspec).
   split; [exact Hsw|]. split; [|repeat split; try assumption].
   - constructor.
     + exact Hml.
@@ -420,7 +633,7 @@ Proof.
       assert (Hne : k' <> k) by (intros ->; inversion Hnd; contradiction).
       rewrite Htasks, (nth_set_nth_other _ _ _ _ (fun E => Hne (eq_sym E))) in Hk1.
       exact (Hnwq k' tk1 a1 (or_intror Hin) Hk1 Hc1).
-  - intros k' Hne. rewrite Htasks. apply nth_set_nth_other. intros E; apply Hne; symmetry; exact E.
+  - intros k' Hne. rewrite Htasks. apply nth_set_nth_other. intros E1; apply Hne; symmetry; exact E1.
   - rewrite Htasks. apply length_set_nth.
   - rewrite Hnid. exact Hnn.
   - intros tk1 H1. rewrite Htasks, (nth_set_nth_same _ _ _ _ Hk) in H1. injection H1 as <-.
@@ -428,12 +641,9 @@ Proof.
   - rewrite Htasks.
     match goal with |- (work (set_nth k ?T _) + 1 <= _)%nat => set (tk' := T) end.
     pose proof (work_set_nth (w_tasks w) k tk tk' Hk) as Hw.
-    assert (Hns : ~ unspawned tk') by (eapply ps_spawned; eassumption).
-    assert (Hwt' : (wt tk' <= length Sx)%nat).
-    { pose proof (frag_run_len t Sx (w_nid w) drc) as Hl. rewrite Efr in Hl. cbn [fst snd] in Hl.
-      unfold wt. unfold unspawned in Hns. cbn [tk' t_steps t_cur t_fin] in *.
-      destruct (fr_cur b); [lia|]. destruct (match fr_steps b with [] => true | _ :: _ => false end); [lia|].
-      exfalso. apply Hns. split; reflexivity. }
+    assert (Hwt' : wt tk' = wres b).
+    { unfold wt, wres, tk'. cbn [t_steps t_cur t_fin].
+      destruct (proj2 (ps_cases _ _ _ _ _ _ _ _ _ Hspec)) as [(Eb & _)|(a & iv' & st & rest & Eb & _)]; rewrite Eb; reflexivity. }
     lia.
 Qed.
 
